@@ -1371,6 +1371,12 @@ func buildExactHistory(dir string, r *rand.Rand, count func(string)) *histRepo {
 	for i := 0; i < nf; i++ {
 		tree[filepath.Join(histDirs[r.Intn(len(histDirs))], fmt.Sprintf("f%d.go", i))] = file(1 + r.Intn(15))
 	}
+	// one repository in two holds a file whose first line is longer than 64 KiB (an embedded asset)
+	// above lines that get edited: every line below it keeps its number
+	if r.Intn(2) == 0 {
+		tree["pkg/a/asset.go"] = "var asset = \"" + strings.Repeat("0123456789abcdef", 4400) + "\"\n" + file(4+r.Intn(6))
+		count("shape:line-longer-than-64KiB")
+	}
 	mutate := func(own func(string) bool) {
 		var ps []string
 		for _, p := range sortedKeys(tree) {
